@@ -96,6 +96,16 @@ class RecModel(_RecMixin, BaseModel):
         return self._do(x, args, kwargs)
 
 
+class RecCallable(_RecMixin):
+    """A recording stage that is a plain Python callable, not an nn.Module."""
+
+    def __init__(self, *a, **k):
+        self._setup(*a, **k)
+
+    def __call__(self, x=None, *args, **kwargs):
+        return self._do(x, args, kwargs)
+
+
 class RecChannel(_RecMixin, BaseChannel):
     def __init__(self, *a, **k):
         super().__init__()
@@ -169,7 +179,8 @@ def gen_case(run_seed: int, index: int, tier: str) -> dict:
         names = [f"b{i}" for i in range(n)]
         rng.shuffle(names)  # declared order is not alphabetical order
         case["branches"] = names
-        case["max_workers"] = rng.choice([None, None] + list(range(1, n + 1)))
+        case["max_workers"] = rng.choice([None, None] + list(range(1, n + 1)) + [n + 1, n + 3, 32])
+        case["plain"] = [nm for nm in names if rng.random() < 0.3]  # branches that are plain callables, not nn.Modules
         case["aggregator"] = rng.random() < 0.6
         case["ctor"] = rng.choice(["steps", "add", "add", "branches"])
         case["fail"] = [nm for nm in names if rng.random() < 0.08] if rng.random() < 0.3 else []
@@ -194,6 +205,7 @@ def gen_case(run_seed: int, index: int, tier: str) -> dict:
         n = rng.randrange(0, 7)
         # a stage object may sit at several positions of one pipeline (the same name = the same object)
         reuse = rng.random() < 0.35
+        case["plain_stages"] = rng.random() < 0.3
         case["stages"] = [f"s{rng.randrange(3)}" if reuse else f"s{i}" for i in range(n)]
         extra = n
         for _ in range(rng.choice([0, 1, 2, 4, 8])):
@@ -206,8 +218,17 @@ def gen_case(run_seed: int, index: int, tier: str) -> dict:
                 case["ops"].append(["forward", _gen_call(rng, 0)])
         case["ops"].append(["forward", _gen_call(rng, 0)])
     elif kind in ("deepjscc", "channelcode"):
+        nfix = 4 if kind == "deepjscc" else 6
+        extra = 0
         for _ in range(rng.choice([1, 2])):
             case["ops"].append(["forward", _gen_call(rng, 0)])
+            if rng.random() < 0.35:  # they inherit add_step / remove_step from the configurable base
+                if rng.random() < 0.6:
+                    case["ops"].append(["add", f"x{extra}"])
+                    extra += 1
+                else:
+                    case["ops"].append(["remove", rng.randrange(0, nfix + extra + 1)])
+                case["ops"].append(["forward", _gen_call(rng, 0)])
     elif kind == "branching":
         n = rng.randrange(1, 6)
         case["branches"] = [f"c{i}" for i in range(n)]
@@ -235,15 +256,15 @@ def gen_case(run_seed: int, index: int, tier: str) -> dict:
             call["return_branch"] = rng.random() < 0.5
             case["ops"].append(["forward", call])
     elif kind == "feedback":
-        case["max_iterations"] = rng.choice([0, 1, 1, 2, 3, 4, 5])
+        case["max_iterations"] = rng.choice([0, 1, 1, 2, 3, 4, 5, 5, 6, 8, 12])
         for _ in range(rng.choice([1, 2])):
             case["ops"].append(["forward", _gen_call(rng, 0)])
     elif kind == "mac":
-        n = rng.randrange(1, 5)
+        n = rng.choice([1, 2, 2, 3, 3, 4, 4, 5, 6, 8])
         case["users"] = n
         case["enc_mode"] = rng.choice(["shared", "list", "list", "list_partial"]) if n >= 3 else rng.choice(["shared", "list", "list"])
         case["dec_mode"] = rng.choice(["joint", "joint_list", "list"])
-        case["shape"] = rng.choice([[2, 3], [1, 4], [3, 2]])
+        case["shape"] = rng.choice([[2, 3], [1, 4], [3, 2], [5, 1], [1, 1], [4, 6]])
         for _ in range(rng.choice([1, 2])):
             call = _gen_call(rng, 0)
             call["inputs"] = [[rng.randrange(-50, 50) for _ in range(case["shape"][0] * case["shape"][1])] for _ in range(n)]
@@ -314,7 +335,7 @@ def run_sequential_family(ctx: Ctx):
 
     def stage(name):
         if name not in objs:
-            objs[name] = RecModel(name, tr)
+            objs[name] = RecCallable(name, tr) if case.get("plain_stages") and name.startswith("s") and int(name[1:]) % 2 == 1 else RecModel(name, tr)
         else:
             ctx.res.probes["sequential.stage_object_reused"] += 1
         return objs[name]
@@ -382,8 +403,11 @@ def run_parallel(ctx: Ctx):
     fallback = bool(case.get("fallback_real_threads"))
     agg = AggRecorder() if case["aggregator"] else None
 
+    plain = set(case.get("plain", []))
+
     def mk(name, rank=0):
-        return RecModel(name, tr, fail=name in fail, delay=(0.002 * rank if fallback else 0.0))
+        cls = RecCallable if name in plain else RecModel
+        return cls(name, tr, fail=name in fail, delay=(0.002 * rank if fallback else 0.0))
 
     names = list(case["branches"])
     ranks = {nm: r for r, nm in enumerate(case.get("fallback_order", names))}
